@@ -20,6 +20,9 @@ pub struct Quirks {
     pub regex_mangle: bool,
     /// K5b: `.` matches CR
     pub dot_matches_cr: bool,
+    /// not a finding: a visiting order RFC 9535 2.5.2.2 also permits (breadth first); used only to
+    /// accept a valid alternative order
+    pub desc_breadth_first: bool,
 }
 
 pub const QUIRK_NAMES: [&str; 6] = [
@@ -43,6 +46,7 @@ impl Quirks {
             literal_escapes_raw: b & 8 != 0,
             regex_mangle: b & 16 != 0,
             dot_matches_cr: b & 32 != 0,
+            desc_breadth_first: false,
         }
     }
     pub fn names(b: u32) -> Vec<&'static str> {
@@ -95,6 +99,21 @@ pub fn eval<'a>(q: &Query, root: &'a J, k: &Quirks) -> Vec<Node<'a>> {
     eval_segs(&q.segs, vec![start], root, k)
 }
 
+/// number of input nodes each segment of `q` receives under the strict semantics
+pub fn input_sizes(q: &Query, root: &J) -> Vec<usize> {
+    let k = Quirks::strict();
+    let mut cur = vec![Node {
+        steps: vec![],
+        v: root,
+    }];
+    let mut out = vec![];
+    for s in &q.segs {
+        out.push(cur.len());
+        cur = apply_seg(s, cur, root, &k);
+    }
+    out
+}
+
 fn eval_segs<'a>(segs: &[Seg], mut cur: Vec<Node<'a>>, root: &'a J, k: &Quirks) -> Vec<Node<'a>> {
     for s in segs {
         cur = apply_seg(s, cur, root, k);
@@ -134,7 +153,19 @@ fn apply_seg<'a>(s: &Seg, input: Vec<Node<'a>>, root: &'a J, k: &Quirks) -> Vec<
     let input = if s.desc {
         let mut v = vec![];
         for n in &input {
-            descendants_or_self(n, &mut v);
+            if k.desc_breadth_first {
+                let mut level = vec![n.clone()];
+                while !level.is_empty() {
+                    let mut next = vec![];
+                    for x in &level {
+                        next.extend(children(x));
+                    }
+                    v.extend(level);
+                    level = next;
+                }
+            } else {
+                descendants_or_self(n, &mut v);
+            }
         }
         v
     } else {
